@@ -6,6 +6,8 @@
 // (register / unregister / notify), the side counts and the window arithmetic only.
 use super::*;
 use crate::verif_k_stubs::*;
+// NOTE (measured): swapping the std VecDeque of the waiter registry for the array-backed stand-in of vshim.rs does NOT help
+// here (unlike for the topic mailbox): the harnesses still exceed 6.5 GB.  The swap is therefore not applied.
 
 pub(crate) const STUB_SLOTS: usize = 8;
 pub(crate) fn stub_chunk_alloc<T>(_chunk_cap: usize) -> *mut Chunk<T> {
